@@ -17,7 +17,8 @@ MCWindow == 32
 (* the 32-byte window are printed.                                          *)
 RECURSIVE Pow2(_)
 Pow2(n) == IF n = 0 THEN 1 ELSE 2 * Pow2(n - 1)
-MaskOf(S) == FoldSet(LAMBDA i, acc : acc + Pow2(i - 1), 0, S)
+P2 == [i \in 0..30 |-> Pow2(i)]                       \* evaluated once
+MaskOf(S) == FoldSet(LAMBDA i, acc : acc + P2[i - 1], 0, S)
 CutSets(w, K) == UNION {kSubset(k, 1..(w - 1)) : k \in 0..K}
 CutMasks(w, K) == {MaskOf(S) : S \in CutSets(w, K)}
 
